@@ -117,7 +117,7 @@ func (f *Frame) instr(ins ssa.Instruction) {
 		st := x.Type().Underlying().(*types.Slice)
 		ln, cp := f.get(x.Len).T, f.get(x.Cap).T
 		ev := e.S.elemVar(st.Elem())
-		e.hset(f.heap, ev, fmt.Sprintf("(store %s %s ((as const (Array Int %s)) %s))", e.hget(f.heap, ev), r, e.S.sortOf(st.Elem()), e.S.zero(st.Elem())))
+		e.hset(f.heap, ev, fmt.Sprintf("(store %s %s ((as const (Array Int %s)) %s))", e.hget(f.heap, ev), r, e.S.sortOf(st.Elem()), constTerm(e.S.zero(st.Elem()))))
 		f.safety("makeslice", f.exprText(x), fmt.Sprintf("(and (<= 0 %s) (<= %s %s))", ln, ln, cp), x.Pos())
 		f.def(x, fmt.Sprintf("(mk_slice %s 0 %s %s)", r, ln, cp))
 	case *ssa.MakeChan:
@@ -173,6 +173,8 @@ func (f *Frame) instr(ins ssa.Instruction) {
 	case *ssa.RunDefers:
 		f.runDefers(x.Pos())
 	case *ssa.Panic:
+		f.curArgTypes = []types.Type{x.X.Type()}
+		f.ghostAt("panic", []Val{f.get(x.X)}, Val{}, false)
 		f.panicExit(x.Pos(), "panic")
 	case *ssa.Return:
 		f.ret(x)
@@ -786,6 +788,9 @@ func (f *Frame) ret(x *ssa.Return) {
 		e.addObl("noreturn", "", f.curReach, "false", x.Pos(), "declared noreturn: no normal return may be reachable", f.props())
 	}
 	for i, c := range e.con.Ensures {
+		if c.Trusted {
+			continue // assumed by callers, not proved here (reported where it is used)
+		}
 		t, err := env.evalBool(c.Expr)
 		if err != nil {
 			e.unsupp(fmt.Sprintf("ensures %s: %v", clauseLabel(c, i), err))
@@ -1051,6 +1056,26 @@ func escapes(v ssa.Value, seen map[ssa.Value]bool) bool {
 			}
 		case *ssa.IndexAddr:
 			if escapes(u, seen) {
+				return true
+			}
+		case *ssa.Call:
+			// passed to a statically known function of the program: does not escape if the
+			// corresponding parameter does not escape in the callee's body (checked
+			// structurally, recursively; cycles are resolved optimistically, which is sound
+			// because an escape needs some concrete escaping instruction in a visited body)
+			callee := u.Call.StaticCallee()
+			if callee == nil || callee.Blocks == nil || u.Call.IsInvoke() {
+				return true
+			}
+			for i, a := range u.Call.Args {
+				if a != v {
+					continue
+				}
+				if i >= len(callee.Params) || escapes(callee.Params[i], seen) {
+					return true
+				}
+			}
+			if u.Call.Value == v {
 				return true
 			}
 		case *ssa.MakeClosure:
